@@ -248,6 +248,18 @@ PRIOR_USES = [None, None, {"constraints": [True, False], "order": "eq_ineq"}, {"
               {"constraints": [True, True], "order": "ineq_eq"}]
 
 
+def line_search_stalled(det):
+    """signature of known finding C11-F2 / C10-F2: the run stopped although the projected-gradient step it last proposed,
+    y = P(x - grad/mu) - x, is far from zero (the step is not a descent direction, the backtracking factor collapsed and the
+    loss difference fell below the threshold).  A run that converged - to whatever point - ends with y ~ 0."""
+    ys = getattr(det, "y", None)
+    if not ys:
+        return False
+    y = np.asarray(ys[-1], dtype=float)
+    x = np.asarray(det.x[-1], dtype=float)
+    return bool(np.linalg.norm(y) > 1e-3 * (1.0 + np.linalg.norm(x)))
+
+
 def proj_cap_hit(ctx, configured=None):
     """True when the library printed its 'projection iterations exceeds the limit N' warning during this case; when the
     configured limit is given, every printed N must be that limit (otherwise the option did not reach the projection)."""
@@ -374,7 +386,7 @@ def kf_constrained_param_nonisometric(case):
 # ----------------------------------------------------------------------------- exact recovery (backtracking)
 @st.composite
 def recovery_case(draw, tier):
-    kinds = ("qst", "qst", "povmt", "qpt") if tier == "quick" else ("qst", "povmt", "qpt", "qmpt")
+    kinds = ("qst", "qst", "povmt", "qpt", "qmpt") if tier == "quick" else ("qst", "povmt", "qpt", "qmpt")
     c = draw(tomo.tomo_case(kinds, ("1q",), (2, 3)))
     c["datadesc"] = {"data": "exact", "n": 1000}
     c["order"] = draw(st.sampled_from(["eq_ineq", "ineq_eq"]))
@@ -407,7 +419,21 @@ def check_recovery(case, ctx):
         return
     # stopping on a loss decrease < 1e-14: squared-error loss ~ sigma_min(A)^2 |dx|^2 ; relative entropy is flatter
     # near the boundary.  The bound below is an accuracy claim 'to stopping accuracy', calibrated on the unchanged tree.
-    ctx.close(z, x, 2e-4 * (1 + float(np.linalg.norm(x))), "backtracking_exact_recovery")
+    # (a failure whose run shows the stall signature is named "stalled:..." - the only form the known finding covers)
+    stalled = line_search_stalled(det)
+    prefix = ""
+    if stalled:
+        ctx.label("line-search-stalled")
+        prefix = "stalled:"
+        if case["loss"].startswith("re"):
+            # second known way to stall (C10-F3): an iterate sits where the model probability of an observed outcome is
+            # below the loss's clipping threshold - there the clipped value and the unclipped gradient q/p disagree
+            p_model = np.asarray(qt.calc_matA() @ np.asarray(det.x[-1], dtype=float) + qt.calc_vecB(), dtype=float)
+            q_data = np.concatenate([np.asarray(e[1], dtype=float) for e in empi])
+            if p_model.shape == q_data.shape and bool(np.any((q_data > 0) & (p_model < 1e-6))):
+                ctx.label("stalled-in-clipping-region")
+                prefix = "stalled_clipped:"
+    ctx.close(z, x, 2e-4 * (1 + float(np.linalg.norm(x))), prefix + "backtracking_exact_recovery")
     ctx.nontrivial(True)
 
 
